@@ -518,6 +518,11 @@ def run(ctx: Context, rep) -> None:
     check_rename(ctx, rep, "C06.rename")
     check_order(ctx, rep, "C06.order")
     check_closed(ctx, rep, "C06.closed")
+    # "an existing list is loaded and extended, never recreated": a list
+    # renamed into place must contain what was committed before (same rule
+    # as C08.load)
+    from sa.rules.c08 import check_load
+    check_load(ctx, rep, "C06.load")
     # between the first closed shard of a continued session and the final
     # description write, list files legitimately differ from the digests
     # their parents record; a reader that verifies digests would refuse
